@@ -67,3 +67,122 @@ package sleep
 //@ requires w.cfg.ClockTolerance >= 0
 //@ ensures fmod(t - w.cfg.Epoch - offsetOf(w.cfg.CycleLength, w.cfg.WindowLength, agentID) + w.cfg.ClockTolerance, w.cfg.CycleLength) < w.cfg.WindowLength + 2*w.cfg.ClockTolerance ==> result
 //@ ensures result ==> fmod(t - w.cfg.Epoch - offsetOf(w.cfg.CycleLength, w.cfg.WindowLength, agentID) + w.cfg.ClockTolerance, w.cfg.CycleLength) <= w.cfg.WindowLength + 2*w.cfg.ClockTolerance
+
+// ---- C30: the sleep state machine, for every interleaving ----
+//
+// Concurrency model: a stateMu region is atomic; everything stateMu guards
+// (including the ghost variables below) is unknown again when the mutex is
+// re-acquired inside one function, constrained only by the lock invariant.
+//
+// Ghost state: wakeEpoch counts completed wakes; epochOfPoll(s) is the history
+// function "value of wakeEpoch when the poll numbered s started" (pollSeq is
+// incremented once per poll start and written nowhere else, so every poll has
+// its own number and the function is defined exactly once per argument);
+// persisted is the state value last written to the state file (persistState
+// is the only writer).
+//
+// Obligations: (1) every store to m.state is one of the five permitted
+// transitions, given the state read in the same region; (2) Sleep while not
+// awake and Wake while awake return their errors without storing or calling
+// back; (3) the lock invariant "state == POLLING ==> no wake completed since
+// the current poll started" is re-established by every region; Poll's second
+// region calls OnPollEnd, stores or re-arms only if state == POLLING and the
+// current poll is still its own, hence only if no wake completed since it
+// started; (4) every region that stores a state persists it before releasing
+// the mutex.
+
+//@ ghost var wakeEpoch int
+//@ ghost var persisted int
+//@ ghost var pollStored bool
+//@ ghost func epochOfPoll(seq uint64) int
+
+//@ guarded Manager.stateMu: state, pollTimer, pollSeq, sleepStartTime, lastPollTime, nextPollTime, ghost:wakeEpoch, ghost:persisted
+//@ lockinv Manager.stateMu(m): istype(m.state, State) && 0 <= ifaceval(m.state) && ifaceval(m.state) <= 2 && (ifaceval(m.state) == 2 ==> epochOfPoll(m.pollSeq) == wakeEpoch)
+
+//@ func (*StateQueue).Clear
+//@ prop C30
+//@ modifies q.queues
+
+//@ func (*Manager).persistState
+//@ prop C30
+//@ requires istype(m.state, State)
+//@ modifies persisted
+//@ at call json.MarshalIndent assert ifaceval($0, PersistedState).State == ifaceval(m.state)
+//@ after call json.MarshalIndent let marshalled = $ret0
+//@ at call os.WriteFile assert $0 == m.stateFile && $1 == marshalled
+//@ ghostset persisted = ite(err == nil, ifaceval(m.state), persisted)
+//@ ensures err == nil ==> persisted == ifaceval(m.state)
+//@ ensures err != nil ==> persisted == old(persisted)
+
+//@ func (*Manager).schedulePollLocked
+//@ prop C30
+//@ modifies m.nextPollTime, m.pollTimer
+
+//@ func (*Manager).jitteredInterval
+//@ prop C30
+//@ note changes nothing (frame obligation); the value is irrelevant to the state machine
+
+//@ func (*Manager).Sleep
+//@ prop C30
+//@ check lockset
+//@ modifies *, wakeEpoch, persisted
+//@ after call Lock let s0 = ifaceval(m.state)
+//@ at call dynamic.OnSleep assert s0 == 0
+//@ at call dynamic.OnSleep let cbState = m.state
+//@ at call dynamic.OnSleep let cbSeq = m.pollSeq
+//@ after call dynamic.OnSleep assume m.state == cbState && m.pollSeq == cbSeq
+//@ at call Store assert ifaceval(m.state) == 0 && istype($1, State) && ifaceval($1) == 1
+//@ after call persistState let perr = $ret
+//@ ensures m.cfg.Enabled && s0 != 0 ==> err == ErrAlreadySleeping
+//@ ensures err == nil ==> ifaceval(m.state) == 1
+//@ ensures err == nil && m.cfg.PersistState && perr == nil ==> persisted == 1
+
+//@ func (*Manager).Wake
+//@ prop C30
+//@ check lockset
+//@ modifies *, wakeEpoch, persisted
+//@ after call Lock let s0 = ifaceval(m.state)
+//@ at call dynamic.OnWake assert s0 != 0
+//@ at call dynamic.OnWake let cbState = m.state
+//@ at call dynamic.OnWake let cbSeq = m.pollSeq
+//@ after call dynamic.OnWake assume m.state == cbState && m.pollSeq == cbSeq
+//@ at call Store assert (ifaceval(m.state) == 1 || ifaceval(m.state) == 2) && istype($1, State) && ifaceval($1) == 0
+//@ after call Store set wakeEpoch = wakeEpoch + 1
+//@ after call persistState let perr = $ret
+//@ ensures m.cfg.Enabled && s0 == 0 ==> err == ErrNotSleeping
+//@ ensures err == nil ==> ifaceval(m.state) == 0
+//@ ensures err == nil && m.cfg.PersistState && perr == nil ==> persisted == 0
+
+//@ func (*Manager).Poll
+//@ prop C30
+//@ check lockset
+//@ modifies *, wakeEpoch, persisted, pollStored
+//@ at call Store#0 assert ifaceval(m.state) == 1 && istype($1, State) && ifaceval($1) == 2
+//@ at call Store#0 let seqBefore = m.pollSeq
+//@ at call Store#0 assume m.pollSeq < 18446744073709551615
+//@ note the assume above excludes wrap-around of the 64-bit poll counter (2^64 polls)
+//@ after call Store#0 let myEpoch = wakeEpoch
+//@ at call Unlock#1 assert m.pollSeq == seqBefore + 1 && seq == m.pollSeq
+//@ at call Unlock#1 assume epochOfPoll(m.pollSeq) == wakeEpoch
+//@ note the assume above defines the history function epochOfPoll at the number just given to this poll (see header)
+//@ at call Unlock#1 assert m.cfg.PersistState ==> persisted == ifaceval(m.state)
+//@ at call dynamic.OnPollEnd assert ifaceval(m.state) == 2 && wakeEpoch == myEpoch
+//@ at call dynamic.OnPollEnd let cbState = m.state
+//@ at call dynamic.OnPollEnd let cbSeq = m.pollSeq
+//@ after call dynamic.OnPollEnd assume m.state == cbState && m.pollSeq == cbSeq
+//@ at call Store#1 assert ifaceval(m.state) == 2 && wakeEpoch == myEpoch && istype($1, State) && ifaceval($1) == 1
+//@ at call schedulePollLocked assert wakeEpoch == myEpoch
+//@ after call persistState let perr = $ret
+//@ after call Lock#0 set pollStored = false
+//@ after call Store#1 set pollStored = true
+//@ ensures m.cfg.Enabled && pollStored ==> ifaceval(m.state) == 1
+//@ ensures m.cfg.Enabled && m.cfg.PersistState && perr == nil && pollStored ==> persisted == 1
+
+//@ census[C30] (*Value).Store in NewManager, (*Manager).Sleep, (*Manager).Wake, (*Manager).Poll, (*Manager).LoadState
+//@ fieldwritesonly[C30] Manager.pollSeq: (*Manager).Poll
+//@ census[C30] dynamic.OnPollEnd in (*Manager).Poll
+//@ census[C30] dynamic.OnPoll in (*Manager).Poll
+//@ census[C30] dynamic.OnSleep in (*Manager).Sleep
+//@ census[C30] dynamic.OnWake in (*Manager).Wake
+//@ census[C30] (*Manager).persistState in (*Manager).Sleep, (*Manager).Wake, (*Manager).Poll, (*Manager).Stop
+//@ census[C30] os.WriteFile in (*Manager).persistState
